@@ -2,8 +2,10 @@
 # usage: seedmeta.py <id> <caught_by text>   -- writes seeded/<id>/meta.json from the agent's meta.json plus what was verified here
 import json, sys
 pid, caught = sys.argv[1], sys.argv[2]
-m = json.load(open(f'/tmp/seeds/{pid}/out/meta.json'))
+import os
+root = os.environ.get('SEEDROOT', '/tmp/seeds'); suf = os.environ.get('SEEDSUFFIX', '')
+m = json.load(open(f'{root}/{pid}/out/meta.json'))
 m['caught_by'] = caught
 m['source'] = "fresh sub-agent given only the property text and a scratch worktree of the repository without any /verif material or contract files"
 m['verified'] = "applied to a clean /repo: go build ./... ok, existing tests of the affected packages pass, demo test FAILS with the change and PASSES without it; ./check %s quick run on the changed tree (seedcheck.sh)" % pid
-json.dump(m, open(f'/verif/seeded/{pid}/meta.json', 'w'), indent=1)
+json.dump(m, open(f'/verif/seeded/{pid}{suf}/meta.json', 'w'), indent=1)
